@@ -49,6 +49,10 @@ CborOps == {"head-len-4GiB", "head-len-2^63", "map-key-renamed", "map-key-droppe
 CborTargets == {"outer-envelope", "inner-envelope", "payload-map", "file-entry", "evidence-field", "random-item"}
 \* on an evidence bundle (fields of the three evidence records): structural absence and size
 EvidenceOps == {"field-absent", "field-empty", "field-oversized", "record-absent", "document-file-absent", "counter-oversized", "oid-empty"}
+\* on the SecurityInfos a document carries next to its evidence (DG14): arrangements of infos, keys and key identifiers
+\* that are well-formed files but do not fit together
+ArrangementOps == {"ca-info-keyid/key-without-keyid", "ca-info-without-keyid/key-with-keyid", "ca-info-keyid/other-key-keyid", "ca-info-without-key",
+                   "key-without-info", "two-keys-without-info", "dh-key", "pace-info-without-parameter-id", "no-infos"}
 \* on the answers of a chip during a read
 ResponseOps == {"all-empty", "all-garbage", "all-9000-no-data", "huge-responses", "tlv-bombs", "never-ending-file", "status-only-errors"}
 TextOps == {"truncate", "extend", "non-ascii", "lowercase", "control-chars", "all-fillers", "empty"}
@@ -62,10 +66,11 @@ Applicable(b, op, tg) ==
   \/ op \in RecordOps /\ tg = "biometric-record" /\ b = "DG2"
   \/ op \in CborOps /\ tg \in CborTargets /\ Encoding(b) = "cbor"
   \/ op \in EvidenceOps /\ tg = "evidence" /\ b = "VerifiableDoc-CBOR"
+  \/ op \in ArrangementOps /\ tg = "evidence" /\ b = "VerifiableDoc-CBOR"
   \/ op \in ResponseOps /\ tg = "session" /\ b = "ChipResponses"
   \/ op \in TextOps /\ tg = "text" /\ b = "MRZ"
 
-AllOps == ByteOps \cup BerOps \cup RecordOps \cup CborOps \cup EvidenceOps \cup ResponseOps \cup TextOps
+AllOps == ByteOps \cup BerOps \cup RecordOps \cup CborOps \cup EvidenceOps \cup ArrangementOps \cup ResponseOps \cup TextOps
 AllTargets == BerTargets \cup CborTargets \cup {"bytes", "evidence", "session", "text", "biometric-record"}
 Plans == {p \in [base : Bases, op : AllOps, target : AllTargets] : Applicable(p.base, p.op, p.target)}
 
